@@ -54,7 +54,10 @@ PROPS = {
                         "sort.Sort returns a permutation ordered by Less (T19.4 then makes the algorithm irrelevant)"],
     },
     "C01": {
-        "theorems": ["rollback_touches_only_tracked", "removal_order", "restore_order", "nothing_tracked_after", "rollback_restores_linkfree_partial", "invariant_after_history", "rollback_returns_nil_linkfree_partial", "rollback_restores_symlink_leaves_partial"],
+        "theorems": ["rollback_touches_only_tracked", "removal_order", "restore_order", "nothing_tracked_after", "rollback_restores_linkfree_partial", "invariant_after_history", "rollback_returns_nil_linkfree_partial", "rollback_restores_symlink_leaves_partial",
+                     "rollback_restores_through_flat_links_partial", "invariant_after_history_through_flat_links",
+                     "later_rollback_still_restores_through_flat_links_partial", "through_flat_links_covers_symlink_leaves"],
+        "extra_modules": ["C01G"],
         "streams": [{"name": "hist", "quick": ["-n", "900"], "thorough": ["-n", "32000"]}],
         "assumptions": HIST_ASSUME,
     },
